@@ -184,6 +184,16 @@ class C07(Prop):
                     c['stream'] += ':open-bar-at-cut'
             c['market2'] = future_rewrite(rng, c['market'], c['T'], c['mode_future'])
             c['mode'] = 'pair'
+            if c['market']['kind'] == 'csv' and rng.random() < 0.35:
+                # in both worlds the data handler object has first served a LATER session (a parameter sweep re-using the handler)
+                shift = rng.choice([3, 7, 14, 30]) * DAY
+                prior = dict(cfg, start=cfg['start'] + shift, end=cfg['end'] + shift)
+                if prior.get('burn') is not None:
+                    prior['burn'] = prior['burn'] + shift
+                if prior['universe'][0] == 'dynamic':
+                    prior['universe'] = ['dynamic', [[a, (None if e is None else e + shift)] for a, e in prior['universe'][1]]] + list(prior['universe'][2:])
+                c['cfg_prior'] = prior
+                c['stream'] += ':handler-served-a-later-session'
             out.append(c)
         return out
 
